@@ -1,6 +1,7 @@
 package families
 
 import (
+	corev1 "k8s.io/api/core/v1"
 	"fmt"
 	"os"
 	"sort"
@@ -85,10 +86,69 @@ func closedScenarios(tier string) []clustermc.Scenario {
 	return out
 }
 
+// pinnedScenarios: closed systems in which every pod is pinned to one node pool (node selector), two
+// departments with two leaf queues each contend for one node, under saturation multipliers 1 and 3
+// with consolidating reclaim off and on. No victim can be moved, so the only defences against a
+// reclaim ping-pong are the fairness validator and the queue-ordered re-placement of victims.
+func pinnedScenarios(tier string) []clustermc.Scenario {
+	pin := func(pool string) func(p *corev1.Pod) {
+		return func(p *corev1.Pod) { p.Spec.NodeSelector = map[string]string{"pool": pool} }
+	}
+	job := func(tag, queue, state, node, pool string) wlItem {
+		ps := pods(1, shG2, state, node)
+		ps[0].Mutate = pin(pool)
+		return wlItem{tag, world.WL{Queue: queue, Pods: ps}}
+	}
+	menu := []wlItem{
+		job("run-d1s-a", "d1s", world.StRunning, "na", "a"),
+		job("run-d2s-b", "d2s", world.StRunning, "nb", "b"),
+		job("run-d2b-shared", "d2b", world.StRunning, "ns", "shared"),
+		job("run-d1b-shared", "d1b", world.StRunning, "ns", "shared"),
+		job("pend-d1b-shared", "d1b", "", "", "shared"),
+		job("pend-d2b-shared", "d2b", "", "", "shared"),
+		job("pend-d1s-shared", "d1s", "", "", "shared"),
+		job("pend-d2s-b", "d2s", "", "", "b"),
+	}
+	lay := nodeLayout{"3n-pools", []world.NodeOpt{
+		{Name: "na", CPU: "16", Mem: "32Gi", GPUs: 2, GPUMemMiB: 40000, Labels: map[string]string{"pool": "a"}},
+		{Name: "nb", CPU: "16", Mem: "32Gi", GPUs: 2, GPUMemMiB: 40000, Labels: map[string]string{"pool": "b"}},
+		{Name: "ns", CPU: "16", Mem: "32Gi", GPUs: 2, GPUMemMiB: 40000, Labels: map[string]string{"pool": "shared"}}}}
+	var qsets []queueSetup
+	for _, dq := range []float64{3, 2} {
+		dq := dq
+		qsets = append(qsets, queueSetup{name("2dept-q", []int{int(dq)}), func(b *world.Builder) {
+			b.GQueue("d1", "", dq, -1, 1).GQueue("d2", "", dq, -1, 1)
+			b.GQueue("d1s", "d1", 1, -1, 1).GQueue("d1b", "d1", 2, -1, 1).GQueue("d2s", "d2", 1, -1, 1).GQueue("d2b", "d2", 2, -1, 1)
+		}})
+	}
+	cfgs := []schedrun.Config{{SaturationMultiplier: "3"}, {SaturationMultiplier: "3", ConsolidatingReclaim: true}, {}, {SaturationMultiplier: "1.5", NoConsolidation: true}}
+	k := 4
+	var out []clustermc.Scenario
+	for _, qs := range qsets {
+		for _, pick := range multisetsUpTo(len(menu), k) {
+			if !hasPending(menu, pick) || len(pick) < 2 {
+				continue
+			}
+			w, ok := buildWLWorld(lay, qs, menu, pick)
+			if !ok {
+				continue
+			}
+			tags := ""
+			for _, i := range pick {
+				tags += menu[i].tag + ","
+			}
+			for ci, cfg := range cfgs {
+				out = append(out, clustermc.Scenario{Name: fmt.Sprintf("%s/%s/cfg%d[%s]:%s", lay.tag, qs.tag, ci, cfg.Label(), tags), World: w, Configs: []schedrun.Config{cfg}})
+			}
+		}
+	}
+	return out
+}
+
 func C15() *clustermc.Family {
 	return &clustermc.Family{
 		Property:  "C15",
-		Scenarios: closedScenarios,
+		Scenarios: func(tier string) []clustermc.Scenario { return append(closedScenarios(tier), pinnedScenarios(tier)...) },
 		Depth: func(tier string) int {
 			if tier == "thorough" {
 				return 16
